@@ -2,13 +2,15 @@
 Driver op of the handshake message codec models (`Model.TLSMessages`, gmtls/handshake_messages.go and
 gm_handshake_messages.go):
 
-  hsmsg <kind> <hex>   -> ok <dump> | reject
+  hsmsg <kind> <hex>          -> ok <dump> | reject
+  hsmsgm <kind> <fields>...   -> <hex of marshalX for a value with these fields>
 
 <kind>: the names of gmtls.VerifHandshakeKinds (`+sh` = hasSignatureAndHash set before parsing).  <dump>: the
 parsed fields as tokens name=value separated by one space, exactly what gmtls.VerifDumpHandshake prints: a
 byte string is hex (`-` when empty), a number decimal, a bool 0/1, a list of numbers joined by `,` (`-` when
 empty), a list of byte strings the hex strings joined by `,` with `.` for an empty entry (`-` for the empty
 list); the last token is marshal=<hex>, what the model's `marshalX` writes for the parsed fields.
+<fields>: the tokens of a dump without marshal=, in the same order (gmtls.VerifMarshalHandshakeFields).
 Core Lean only.
 -/
 import Gmsm.Model.TLSMessages
@@ -82,9 +84,131 @@ def hsmsgOp (args : List String) : String :=
     | none => "bad-op"
   | _ => "bad-op"
 
+-- hsmsgm: the fields of a message, in the format of a dump, to what `marshalX` writes for them ----------------
+
+/-- the value of token `name=value` -/
+def tlsTok (name tok : String) : Option String :=
+  let pre := name ++ "="
+  if tok.startsWith pre then some (tok.drop pre.length).toString else none
+
+def tlsBytesOf (name tok : String) : Option Bytes :=
+  match tlsTok name tok with
+  | some v => if v = "-" then some [] else (match ofHex v with
+    | some b => if b.isEmpty then none else some b
+    | none => none)
+  | none => none
+
+def tlsListOf (name tok : String) : Option (List Bytes) :=
+  match tlsTok name tok with
+  | some v => if v = "-" then some [] else
+    (v.splitOn ",").mapM fun c => if c = "." then some [] else if c = "" ∨ c = "-" then none else ofHex c
+  | none => none
+
+def tlsNumsOf (name tok : String) : Option (List Nat) :=
+  match tlsTok name tok with
+  | some v => if v = "-" then some [] else
+    (v.splitOn ",").mapM fun c => match c.toNat? with
+      | some n => if n < 65536 then some n else none
+      | none => none
+  | none => none
+
+def tlsNumOf (name tok : String) (bound : Nat) : Option Nat :=
+  match tlsTok name tok with
+  | some v => (match v.toNat? with
+    | some n => if n < bound then some n else none
+    | none => none)
+  | none => none
+
+def tlsBoolOf (name tok : String) : Option Bool :=
+  match tlsTok name tok with
+  | some v => if v = "1" then some true else if v = "0" then some false else none
+  | none => none
+
+/-- `some bytes`: what the model's `marshalX` writes; `none`: unknown kind or malformed fields -/
+def hsmsgMarshal (kind : String) (f : List String) : Option Bytes :=
+  match kind, f with
+  | "certificate", [a] => (tlsListOf "certs" a).map fun cs => marshalCertificate ⟨cs⟩
+  | "serverKeyExchange", [a] => (tlsBytesOf "key" a).map fun k => marshalServerKeyExchange ⟨k⟩
+  | "clientKeyExchange", [a] => (tlsBytesOf "ciphertext" a).map fun k => marshalClientKeyExchange ⟨k⟩
+  | "finished", [a] => (tlsBytesOf "verifyData" a).map fun k => marshalFinished ⟨k⟩
+  | "serverHelloDone", [] => some (marshalServerHelloDone ⟨⟩)
+  | "helloRequest", [] => some (marshalHelloRequest ⟨⟩)
+  | "certificateVerify", [a, b] => do
+      let alg ← tlsNumOf "sigalg" a 65536
+      let sig ← tlsBytesOf "sig" b
+      pure (marshalCertificateVerify ⟨false, alg, sig⟩)
+  | "certificateVerify+sh", [a, b] => do
+      let alg ← tlsNumOf "sigalg" a 65536
+      let sig ← tlsBytesOf "sig" b
+      pure (marshalCertificateVerify ⟨true, alg, sig⟩)
+  | "newSessionTicket", [a] => (tlsBytesOf "ticket" a).map fun k => marshalNewSessionTicket ⟨k⟩
+  | "certificateRequest", [a, b, c] => do
+      let types ← tlsBytesOf "types" a
+      let algs ← tlsNumsOf "sigalgs" b
+      let cas ← tlsListOf "cas" c
+      pure (marshalCertificateRequest ⟨false, types, algs, cas⟩)
+  | "certificateRequest+sh", [a, b, c] => do
+      let types ← tlsBytesOf "types" a
+      let algs ← tlsNumsOf "sigalgs" b
+      let cas ← tlsListOf "cas" c
+      pure (marshalCertificateRequest ⟨true, types, algs, cas⟩)
+  | "certificateRequestGM", [a, c] => do
+      let types ← tlsBytesOf "types" a
+      let cas ← tlsListOf "cas" c
+      pure (marshalCertificateRequestGM ⟨types, cas⟩)
+  | "certificateStatus", [a, b] => do
+      let st ← tlsNumOf "statusType" a 256
+      let resp ← tlsBytesOf "response" b
+      pure (marshalCertificateStatus ⟨st, resp⟩)
+  | "nextProto", [a] => (tlsBytesOf "proto" a).map fun k => marshalNextProto ⟨k⟩
+  | "serverHello", [a1, a2, a3, a4, a5, a6, a7, a8, a9, a10, a11, a12, a13] => do
+      let vers ← tlsNumOf "vers" a1 65536
+      let random ← tlsBytesOf "random" a2
+      let sid ← tlsBytesOf "sessionId" a3
+      let suite ← tlsNumOf "suite" a4 65536
+      let comp ← tlsNumOf "comp" a5 256
+      let npn ← tlsBoolOf "npn" a6
+      let protos ← tlsListOf "nextProtos" a7
+      let ocsp ← tlsBoolOf "ocsp" a8
+      let scts ← tlsListOf "scts" a9
+      let ticket ← tlsBoolOf "ticket" a10
+      let reneg ← tlsBytesOf "reneg" a11
+      let renegS ← tlsBoolOf "renegSupported" a12
+      let alpn ← tlsBytesOf "alpn" a13
+      pure (marshalServerHello ⟨vers, random, sid, suite, comp, npn, protos, ocsp, scts, ticket, reneg, renegS, alpn⟩)
+  | "clientHello", [a1, a2, a3, a4, a5, a6, a7, a8, a9, a10, a11, a12, a13, a14, a15, a16, a17] => do
+      let vers ← tlsNumOf "vers" a1 65536
+      let random ← tlsBytesOf "random" a2
+      let sid ← tlsBytesOf "sessionId" a3
+      let suites ← tlsNumsOf "suites" a4
+      let comps ← tlsBytesOf "comps" a5
+      let npn ← tlsBoolOf "npn" a6
+      let sni ← tlsBytesOf "serverName" a7
+      let ocsp ← tlsBoolOf "ocsp" a8
+      let scts ← tlsBoolOf "scts" a9
+      let curves ← tlsNumsOf "curves" a10
+      let points ← tlsBytesOf "points" a11
+      let ticketS ← tlsBoolOf "ticketSupported" a12
+      let ticket ← tlsBytesOf "ticket" a13
+      let algs ← tlsNumsOf "sigalgs" a14
+      let reneg ← tlsBytesOf "reneg" a15
+      let renegS ← tlsBoolOf "renegSupported" a16
+      let alpn ← tlsListOf "alpn" a17
+      pure (marshalClientHello ⟨vers, random, sid, suites, comps, npn, sni, ocsp, scts, curves, points, ticketS, ticket,
+        algs, reneg, renegS, alpn⟩)
+  | _, _ => none
+
+def hsmsgmOp (args : List String) : String :=
+  match args with
+  | kind :: fields => (match hsmsgMarshal kind fields with
+    | some b => hx b
+    | none => "bad-op")
+  | _ => "bad-op"
+
 def tlsMessagesDispatch (toks : List String) : Option String :=
   match toks with
   | "hsmsg" :: rest => some (hsmsgOp rest)
+  | "hsmsgm" :: rest => some (hsmsgmOp rest)
   | _ => none
 
 end Driver
